@@ -193,7 +193,66 @@ func checkC09(c *Ctx) {
 			}
 		}
 		c.Check(okGC, "R1", "setup:game-count-before-start", p.Pos(setup.Pos()), "GameCount ← parameter before Start", "the set-up's game count is not recorded before the ready group is started")
-		// the state's participant map is rebuilt with IsReady=false for the given participants
+		// the gate's own participant map — consulted to reject unknown ids and reported to the
+		// callback — starts empty at each set-up and gets one entry per ready-group Add
+		type topped struct {
+			in  ssa.Instruction
+			top ssa.Instruction
+		}
+		var inner []topped
+		var walk func(g *ssa.Function, top ssa.Instruction, d int)
+		walk = func(g *ssa.Function, top ssa.Instruction, d int) {
+			for _, b := range g.Blocks {
+				for _, in := range b.Instrs {
+					t := top
+					if g == setup {
+						t = in
+					}
+					inner = append(inner, topped{in, t})
+					if ci, isC := in.(ssa.CallInstruction); isC {
+						if sc := ci.Common().StaticCallee(); sc != nil && p.IsRepoFunc(sc) && d < 3 && sc.Signature.Recv() != nil {
+							walk(sc, t, d+1)
+						}
+					}
+				}
+			}
+		}
+		walk(setup, nil, 0)
+		var fresh ssa.Instruction
+		nUpd := 0
+		for _, ti := range inner {
+			switch x := ti.in.(type) {
+			case *ssa.Store:
+				a := p.Sym(x.Addr).Strip()
+				if a.IsField("OpenGameState", "Participants") {
+					if _, isMM := x.Val.(*ssa.MakeMap); isMM && Dominates(stop.Top, ti.top) {
+						fresh = ti.top
+					} else {
+						c.Bad("R1", "setup:state-map-store", p.InstrPos(ti.top), "the gate's participant map is set to "+p.Sym(x.Val).String()+", not a fresh empty map")
+					}
+				}
+			case *ssa.MapUpdate:
+				m := p.Sym(x.Map).Strip()
+				if m.IsField("OpenGameState", "Participants") {
+					nUpd++
+					mirrored := false
+					for _, a := range adds {
+						if a.Top == ti.top {
+							mirrored = true
+						}
+					}
+					c.Check(mirrored, "R1", "setup:state-entry-with-each-add", p.InstrPos(ti.top), "entry recorded together with the ready-group Add", "a participant is recorded in the gate's state without being added to the ready group")
+				}
+			}
+		}
+		okFresh := fresh != nil
+		for _, a := range adds {
+			if fresh == nil || !Dominates(fresh, a.Top) {
+				okFresh = false
+			}
+		}
+		c.Check(okFresh, "R1", "setup:state-forgets-previous-participants", p.Pos(setup.Pos()), "state.Participants ← fresh empty map after Stop, before every Add", "Setup does not start from an empty participant map: ids of an earlier set-up stay known to the gate and can signal the new one")
+		c.Check(nUpd >= 1, "R1", "setup:state-records-participants", p.Pos(setup.Pos()), "participants recorded in the state", "Setup records no participant in the gate's state")
 	}
 	// ---------------- R2
 	var readyFn *ssa.Function
